@@ -174,7 +174,11 @@ def storageMask (arr : Arr) (nx ny nz : Nat) (spec : Spec) (choices : List (List
     | sp => sp
   match spec with
   | .seq _ => .error "unreachable"
-  | .boolMask bs => if bs.length = exts.length then .ok (bs, false) else .error "IndexError"
+  | .boolMask bs =>
+    -- the range check comes first, with `True == 1`, `False == 0` (`np.array(bools) > N - 1`);
+    -- only then does `mask[list(bools)] = True` use the list as a boolean mask
+    if bs.any (fun b => decide (((if b then 1 else 0 : Int)) > (exts.length : Int) - 1)) then .error "ValueError"
+    else if bs.length = exts.length then .ok (bs, false) else .error "IndexError"
   | .none => .ok (List.replicate exts.length false, true)
   | .ints xs => (interpretInts exts.length xs).map (·, false)
   | .str s => (interpretString arr nz exts s (choices.headD [])).map fun p => (p.1, false)
